@@ -196,6 +196,91 @@ func genElement(rng *rand.Rand) ([]byte, string) {
 	return out, fmt.Sprintf("element|%s|%s|%s|%s", tname, sclass, bkind, ctx)
 }
 
+// genSequence: elements that are each well-formed, in an order the grammar of an archive does not allow (a goodbye
+// with no directory open, one goodbye too many, payload without entry, two entries in a row, names without entries,
+// a complete archive followed by more) - bookkeeping of the decoder (depth, current directory, pending entry) must
+// cope with every order.
+func genSequence(rng *rand.Rand) ([]byte, string) {
+	goodbye := u64(16+24, desync.CaFormatGoodbye, 0, 40, desync.CaFormatGoodbyeTailMarker)
+	payload := append(u64(16+5, desync.CaFormatPayload), []byte("hello")...)
+	symlink := append(u64(16+2, desync.CaFormatSymlink), 'x', 0)
+	device := u64(32, desync.CaFormatDevice, 1, 3)
+	file := func(n string) []byte { return append(append(filename(n), validEntry(0100644)...), payload...) }
+	var out []byte
+	var sig []byte
+	add := func(code byte, b []byte) { out = append(out, b...); sig = append(sig, code) }
+	shape := rng.Intn(8)
+	switch shape {
+	case 0: // complete small archive, then surplus goodbyes
+		add('D', validEntry(040755))
+		add('f', file("a"))
+		add('g', goodbye)
+		for k := 0; k < 1+rng.Intn(3); k++ {
+			add('g', goodbye)
+		}
+	case 1: // a single-file archive followed by a goodbye
+		add('F', validEntry(0100644))
+		add('p', payload)
+		add('g', goodbye)
+	case 2: // begins with goodbye(s)
+		for k := 0; k < 1+rng.Intn(2); k++ {
+			add('g', goodbye)
+		}
+		if rng.Intn(2) == 0 {
+			add('D', validEntry(040755))
+			add('g', goodbye)
+		}
+	case 3: // empty directory closed twice, inside a root
+		add('D', validEntry(040755))
+		add('n', filename("d"))
+		add('D', validEntry(040755))
+		add('g', goodbye)
+		add('g', goodbye)
+		add('g', goodbye)
+	case 4: // a corpus archive with goodbyes in front of or behind it
+		var ks []int
+		for k, n := range corpusNames {
+			if strings.HasSuffix(n, ".catar") {
+				ks = append(ks, k)
+			}
+		}
+		if len(ks) > 0 {
+			if rng.Intn(2) == 0 {
+				add('g', goodbye)
+			}
+			add('A', corpus[ks[rng.Intn(len(ks))]])
+			for k := 0; k < rng.Intn(3); k++ {
+				add('g', goodbye)
+			}
+			if rng.Intn(3) == 0 {
+				add('f', file("late"))
+			}
+		}
+	default: // a random walk over well-formed elements
+		for k := 0; k < 2+rng.Intn(14); k++ {
+			switch rng.Intn(9) {
+			case 0:
+				add('D', validEntry(040755))
+			case 1:
+				add('F', validEntry(0100644))
+			case 2:
+				add('L', validEntry(0120777))
+			case 3:
+				add('p', payload)
+			case 4:
+				add('s', symlink)
+			case 5, 6:
+				add('g', goodbye)
+			case 7:
+				add('C', append(validEntry(0020644), device...))
+			default:
+				add('n', filename([]string{"a", "b", "zz"}[rng.Intn(3)]))
+			}
+		}
+	}
+	return out, fmt.Sprintf("sequence|%d|%s", shape, string(sig))
+}
+
 func genTruncation(rng *rand.Rand) ([]byte, string) {
 	k := rng.Intn(len(corpus))
 	b := corpus[k]
@@ -335,7 +420,10 @@ func run(c *harness.Ctx, i int) {
 		var in []byte
 		var gen string
 		forced := ""
-		switch rng.Intn(10) {
+		switch rng.Intn(11) {
+		case 10:
+			in, gen = genSequence(rng)
+			forced = []string{"archive", "archive", "format"}[rng.Intn(3)]
 		case 9:
 			in, gen, forced = genSizeField(rng)
 		case 8:
@@ -543,6 +631,13 @@ func run(c *harness.Ctx, i int) {
 				saveInput(c, in)
 				return
 			}
+		}
+		// an archive with a goodbye element where no directory is open (one too many at the end, one in front, a file as
+		// root closed like a directory) is malformed input
+		if f := strings.Split(gen, "|"); target == "archive" && f[0] == "sequence" && (f[1] == "0" || f[1] == "1" || f[1] == "2" || f[1] == "3") && strings.HasPrefix(r.outcome, "ok") {
+			c.Violation("malformed-accepted:surplus-goodbye", "ArchiveDecoder read an element sequence (%s: D/F/L = directory/file/link entry, n = filename, p = payload, g = goodbye, f = named file) with a goodbye element that closes nothing to the end without an error (%s)", f[2], r.outcome)
+			saveInput(c, in)
+			return
 		}
 		if r.outcome == "error" || r.outcome == "ok:2" {
 			g := gen
